@@ -1,4 +1,6 @@
 //! `mc` — bounded-exhaustive model checking of toml-rs/toml.  One subcommand per property.
+mod c03;
+mod c14;
 mod c_docs;
 mod common;
 mod docu;
@@ -15,6 +17,7 @@ fn main() {
     }
     common::quiet_panics();
     let prop = args[1].as_str();
+    common::init_known(prop);
     if prop == "audit" {
         std::process::exit(c_docs::audit_model());
     }
@@ -22,6 +25,8 @@ fn main() {
         let path = args.get(3).expect("replay path");
         let code = match prop {
             "C01" | "C02" | "C09" => c_docs::replay(prop, path),
+            "C03" => c03::replay(path),
+            "C14" => c14::replay(path),
             _ => {
                 println!("MACHINERY-ERROR no replay for {}", prop);
                 2
@@ -44,6 +49,8 @@ fn main() {
         "C01" => c_docs::c01(tier),
         "C02" => c_docs::c02(tier),
         "C09" => c_docs::c09(tier),
+        "C03" => c03::c03(tier),
+        "C14" => c14::c14(tier),
         _ => {
             println!("MACHINERY-ERROR unknown property {}", prop);
             2
